@@ -1,3 +1,86 @@
 import KsiVerif.Util.DriverMain
-open KsiVerif
-def main : IO Unit := runDriver (fun i _ => "skip no-model-yet " ++ i)
+import KsiVerif.Proofs.Ha
+/-! Model driver for C15 — protocol in harness/exec_c15.c. -/
+open KsiVerif KsiVerif.Ha
+
+def verdict (cls model impl : String) (spec : Option String) : String :=
+  match spec with
+  | some why => s!"specfail {cls} {why}"
+  | none => if model == impl then s!"ok {cls}" else s!"diff {cls} model={model}"
+
+def b01 (b : Bool) : String := if b then "1" else "0"
+def optS (o : Option Nat) : String := match o with | some v => toString v | none => "x"
+def parseOpt (s : String) : Option Nat := if s == "x" then none else s.toNat?
+
+def parseConf (s : String) : Option Conf :=
+  match s.splitOn ":" with
+  | [l, p, r, f, t] => some { maxLevel := parseOpt l, aggrPeriod := parseOpt p, maxRequests := parseOpt r,
+                              calFirst := parseOpt f, calLast := parseOpt t }
+  | _ => none
+
+def parseEv (s : String) : Option Ev :=
+  match s.toList with
+  | 'r' :: rest => (String.ofList rest).toNat?.map Ev.resp
+  | 'e' :: rest =>
+    match (String.ofList rest).splitOn ":" with
+    | [o, c] => match o.toNat?, c.toNat? with
+      | some a, some b => some (.err a b)
+      | _, _ => none
+    | _ => none
+  | _ => none
+
+def showOut : Out → String
+  | .response o => s!"R{o}"
+  | .failed e => s!"F{e}"
+  | .notice e => s!"N{e}"
+
+/-- documented ranges, written out independently of the generated predicates -/
+def docMax (lo hi : Nat) (l : List (Option Nat)) : Option Nat :=
+  ((l.filterMap id).filter fun v => lo ≤ v && v ≤ hi).max?
+def docMin (lo hi : Nat) (l : List (Option Nat)) : Option Nat :=
+  ((l.filterMap id).filter fun v => lo ≤ v && v ≤ hi).min?
+
+def handle (inp out : String) : String :=
+  let ow := words out
+  match words inp with
+  | ["pred", v] =>
+    match v.toNat? with
+    | some n =>
+      let ms := s!"{b01 (Gen.Ha.isMaxLevelValid n)} {b01 (Gen.Ha.isAggrPeriodValid n)} {b01 (Gen.Ha.isMaxRequestsValid n)} {b01 (Gen.Ha.isCalendarTimeValid n)}"
+      let doc := s!"{b01 (1 ≤ n && n ≤ 20)} {b01 (100 ≤ n && n ≤ 20000)} {b01 (1 ≤ n && n ≤ 16000)} {b01 (1136073600 ≤ n)}"
+      verdict "pred" ms out (if out != doc then some "range-predicate-differs-from-documented-range" else none)
+    | none => "skip bad-pred"
+  | ["cons", cs] =>
+    match (cs.splitOn ";").mapM parseConf with
+    | some confs =>
+      let c := consolidateAll confs
+      let ms := s!"{optS c.maxLevel} {optS c.aggrPeriod} {optS c.maxRequests} {optS c.calFirst} {optS c.calLast}"
+      let big := 2 ^ 64
+      let doc := s!"{optS (docMax 1 20 (confs.map (·.maxLevel)))} {optS (docMin 100 20000 (confs.map (·.aggrPeriod)))} {optS (docMax 1 16000 (confs.map (·.maxRequests)))} {optS (docMin 1136073600 big (confs.map (·.calFirst)))} {optS (docMax 1136073600 big (confs.map (·.calLast)))}"
+      verdict s!"cons:n{confs.length}" ms out (if out != doc then some "consolidated-value-differs-from-documented-min/max-of-in-range-values" else none)
+    | none => "skip bad-cons"
+  | ["fan", n, evs] =>
+    match n.toNat?, (if evs == "-" then some [] else (evs.splitOn ",").mapM parseEv) with
+    | some k, some es =>
+      let outs := run (start k) es
+      let ms := if outs.isEmpty then "-" else ",".intercalate (outs.map showOut)
+      -- oracle on the implementation's queue: completions / notices as the property states them
+      let implOuts := if out == "-" then [] else out.splitOn ","
+      let comps := implOuts.filter fun s => s.startsWith "R" || s.startsWith "F"
+      let spec : Option String :=
+        if es.length > k then none else
+        match firstResp es with
+        | some o =>
+          if comps != [s!"R{o}"] then some "not-completed-exactly-once-with-the-first-valid-response"
+          else if (implOuts.filter (·.startsWith "N")).length != (errCodes es).length then some "errors-not-all-reported-as-notices"
+          else none
+        | none =>
+          if es.length < k then (if comps.isEmpty then none else some "completed-before-all-endpoints-failed")
+          else if k == 0 then none
+          else if comps != [s!"F{(errCodes es).headD 0}"] then some "not-failed-exactly-once-after-all-endpoints-failed"
+          else none
+      verdict s!"fan:n{k}:{if (firstResp es).isSome then "resp" else "noresp"}" ms out spec
+    | _, _ => "skip bad-fan"
+  | _ => "skip unknown-op"
+
+def main : IO Unit := runDriver handle
